@@ -54,6 +54,11 @@ def scenarios(r, n, ctx):
                                 'text_mode': text, 'file_perms': None, 'umask': 0o022, 'dest': dest,
                                 'part': 'absent', 'writes': body, 'flush': []})
     extra = []
+    for body in ([5], [3, 4, 5, 6, 7], [20000]):
+        for dest in ('absent', 'present'):
+            extra.append({'overwrite': True, 'overwrite_part': False, 'rm_part_on_exc': False, 'text_mode': False,
+                          'file_perms': None, 'umask': 0o022, 'dest': dest, 'part': 'absent', 'writes': body,
+                          'flush': []})
     for _ in range(n):
         body = [r.choice([0, 1, 7, 100, 4096, 8192, 8193, 30000]) for _ in range(r.randint(0, 6))]
         s = {'overwrite': r.random() < 0.7, 'overwrite_part': r.random() < 0.3, 'rm_part_on_exc': r.random() < 0.8,
@@ -149,6 +154,45 @@ def check_scenario_B(fu, scn, stats, viol):
         stats.peak('max_events_per_save', n)
         if len(stats.samples) < 2:
             stats.sample({'scenario': scn, 'event_log': log})
+        # the same state oracle when the operating system starts refusing writes (disk full / file-size limit
+        # from some call on): whatever the save then reports, the destination is old or complete, never partial
+        import errno as _errno
+        for k, ev in enumerate(log):
+            if ev[0] not in ('write', 'flush', 'fsync', 'close'):
+                continue
+            df = os.path.join(base, 'f%d' % k)
+            os.mkdir(df)
+            rf = F.run_in_process(fu, scn, df, faults={'persist': (k, _errno.ENOSPC)})
+            stats.evaluations += 1
+            stats.monitor_evals += 1
+            stats.count('io-error-from:' + ev[0])
+            bad = classify_dest(rf['after'], rf['before'], want)
+            if bad or (rf['exc'] is None and (rf['after']['dest'] is None or rf['after']['dest']['bytes'] != want)):
+                viol('io-error-from:%s:%s' % (ev[0], bad or 'reported-success-without-the-content'),
+                     'ENOSPC from event %d (%s) on: save %s, destination holds %r... (want old or all %d new bytes)'
+                     % (k, ev[0], 'raised %r' % rf['exc'] if rf['exc'] else 'returned normally',
+                        rf['after']['dest'] and rf['after']['dest']['bytes'][:30], len(want)),
+                     {'layer': 'B', 'scn': scn, 'crash_before': None})
+            shutil.rmtree(df, ignore_errors=True)
+        # and with a real kernel-side limit (RLIMIT_FSIZE in a forked child): buffered data cannot be written
+        # at flush/close time either, exactly like a full disk
+        for limit in sorted(set([0, 1, len(want) // 2, max(0, len(want) - 1), 4096])):
+            if limit >= len(want):
+                continue
+            dl = os.path.join(base, 'l%d' % limit)
+            os.mkdir(dl)
+            status, after, before = F.run_limited_child(fu, scn, dl, limit)
+            stats.evaluations += 1
+            stats.monitor_evals += 1
+            stats.count('fsize-limit-runs')
+            bad = classify_dest(after, before, want)
+            if bad or (status == 'completed' and (after['dest'] is None or after['dest']['bytes'] != want)) \
+                    or status.startswith('child-error'):
+                viol('file-size-limit:%s:%s' % (status, bad or 'reported-success-without-the-content'),
+                     'RLIMIT_FSIZE=%d (new content %d bytes): save %s, destination holds %r...'
+                     % (limit, len(want), status, after['dest'] and after['dest']['bytes'][:30]),
+                     {'layer': 'B', 'scn': scn, 'crash_before': None})
+            shutil.rmtree(dl, ignore_errors=True)
         touched = False
         for k in range(n + 1):
             dk = os.path.join(base, 'k%d' % k)
